@@ -152,6 +152,12 @@ func (a *act) table() *table {
 			t.keks = append(t.keks, kekEntry{label: a.asLabel, kek: a.asKEK})
 		}
 	}
+	// per-device AS-KEK labels: the all-zero DevEUI and the decoy device have labels and KEKs of their own, so the
+	// argument the handler passes to GetASKEKLabelByDevEUIFunc matters
+	dec := decoyEUI(a.dev.devEUI)
+	t.aslabels = append(t.aslabels, asEntry{eui: dec, label: "as-decoy"}, asEntry{eui: [8]byte{}, label: "as-zero"})
+	t.keks = append(t.keks, kekEntry{label: "as-decoy", kek: append(append([]byte{}, dec[:]...), dec[:]...)},
+		kekEntry{label: "as-zero", kek: []byte("zero-eui-kek-16b")})
 	return t
 }
 
